@@ -82,6 +82,24 @@ func T(n int, _ ...int) int {
 	return r
 }
 
+// TV: the switch tag as a DYNAMIC TYPE (T0{} .. T9{}), so that a tagged switch can be written as a type switch
+type (
+	T0 struct{}
+	T1 struct{}
+	T2 struct{}
+	T3 struct{}
+	T4 struct{}
+	T5 struct{}
+	T6 struct{}
+	T7 struct{}
+	T8 struct{}
+	T9 struct{}
+)
+
+var tagTypes = [...]any{T0{}, T1{}, T2{}, T3{}, T4{}, T5{}, T6{}, T7{}, T8{}, T9{}}
+
+func TV(n int, uses ...int) any { return tagTypes[T(n, uses...)] }
+
 // ---- reference coroutine: the source body on its own goroutine, Yield really suspends ----
 
 type msg[T any] struct {
